@@ -79,3 +79,22 @@ pub proof fn lemma_groups(qs: Set<(String, (String, Pt))>, m: Map<&String, (&Pt,
     }
     assert forall|i: int, j: int| 0 <= i < j < gs.len() implies key_lt((#[trigger] gs[i]).0, (#[trigger] gs[j]).0) by { assert(key_lt(*gv[i].0, *gv[j].0)); }
 }
+// every entry of the label -> commitment map is one of the listed commitments (the last one carrying that label)
+pub proof fn lemma_last_with_label(cs: Seq<&LabeledCommitment<Comm>>, l: String, lo: int, n: int) -> (i: int)
+    requires 0 <= lo < n <= cs.len(), cs[lo].label == l
+    ensures lo <= i < n, cs[i].label == l, forall|j: int| i < j < n ==> (#[trigger] cs[j]).label != l
+    decreases n - lo
+{
+    if forall|j: int| lo < j < n ==> (#[trigger] cs[j]).label != l { lo }
+    else { let j = choose|j: int| lo < j < n && (#[trigger] cs[j]).label == l; lemma_last_with_label(cs, l, j, n) }
+}
+pub proof fn lemma_cmap_entry(m: Map<&String, &LabeledCommitment<Comm>>, cs: Seq<&LabeledCommitment<Comm>>, k: &String) -> (i: int)
+    requires cmap_ok(m, cs), m.dom().contains(k)
+    ensures 0 <= i < cs.len(), m[k] == cs[i], cs[i].label == *k
+{
+    let i0 = choose|i: int| 0 <= i < cs.len() && (#[trigger] cs[i]).label == *k;
+    let i = lemma_last_with_label(cs, *k, i0, cs.len() as int);
+    assert(c_is_last(cs, i));
+    assert(m[&cs[i].label] == cs[i]);
+    i
+}
